@@ -52,7 +52,7 @@ def plan(tier):
     return {"shards": 16, "timeout": 900 if tier == "quick" else 4 * 3600,
             "required_monitors": ["lift-oracle", "nvec-mismatch-must-raise", "norm-oracle", "dot-oracle",
                                   "cross-oracle", "product-laws", "stateful-reads"],
-            "required_tags": ["other-operand-on-the-left"]}
+            "required_tags": ["other-operand-on-the-left", "component-assigned"]}
 
 
 def cases(ctx):
@@ -413,8 +413,35 @@ def _stateful(osy, rng, res):
 
     def check(label):
         res.count("stateful-reads")
-        cur = [np.asarray(c.values, dtype=np.longdouble) for c in old._xyz.values()]
+        # the components are the public attributes x, y, z as they are NOW (they may have been assigned since)
+        live = [c for c in (old.x, old.y, old.z) if c is not None]
+        cur = [np.asarray(c.values, dtype=np.longdouble) for c in live]
         exp = Q.of(np.sqrt(sum(c * c for c in cur)), old.unit)
+        # arithmetic acts on those same components: 2*v and v.v
+        with np.errstate(all="ignore"):
+            dbl = attempt(lambda: old * 2.0)
+            vv = attempt(lambda: old.dot(old))
+        if not dbl.ok or not vv.ok:
+            res.violate("raised-unexpectedly", f"{label} after {steps}: v * 2.0 / v.dot(v) {(dbl if not dbl.ok else vv).describe()}",
+                        steps=steps)
+            return None
+        got = [c for c in (dbl.value.x, dbl.value.y, dbl.value.z) if c is not None]
+        if len(got) != len(cur):
+            res.violate("components-stale", f"{label} after {steps}: v has {len(cur)} components, v * 2.0 has {len(got)}", steps=steps)
+            return None
+        for ci, (g, c) in enumerate(zip(got, cur)):
+            m0 = compare_quantity(g.values, g.unit, Q.of(2 * c, old.unit), 64 * rtol_for("float64"))
+            if m0:
+                res.violate("components-stale", f"{label} after {steps}: (v * 2.0).{'xyz'[ci]} is not twice the current component: {m0}",
+                            steps=steps)
+                return None
+        m1 = compare_quantity(vv.value.values, vv.value.unit, Q(sum(c * c for c in cur) * np.longdouble(scale_dims(old.unit)[0]) ** 2,
+                                                                   dims_mul(scale_dims(old.unit)[1], scale_dims(old.unit)[1])),
+                              64 * rtol_for("float64"))
+        if m1:
+            res.violate("dot-stale", f"{label} after {steps}: v.dot(v) is not the sum of squares of the current components: {m1}",
+                        steps=steps)
+            return None
         with np.errstate(all="ignore"):
             o = attempt(lambda: old.norm)
         if not o.ok:
@@ -425,7 +452,7 @@ def _stateful(osy, rng, res):
             res.violate("norm-stale", f"{label} after {steps}: norm is not the Euclidean norm of the current components: {msg}",
                         steps=steps)
             return None
-        if nvec == 3:
+        if len(cur) == 3:
             w = _vec(osy, [np.ones(n), np.zeros(n), np.zeros(n)], "")
             d = attempt(lambda: old.dot(w))
             if d.ok:
@@ -438,15 +465,26 @@ def _stateful(osy, rng, res):
         r = check(f"read {step}")
         if r is None:
             return
-        op = ["iop-wrapper", "view", "buffer", "scale-returned-norm", "component-iop", "unit-rebind"][int(rng.integers(0, 6))]
+        op = ["iop-wrapper", "view", "buffer", "scale-returned-norm", "component-iop", "unit-rebind", "assign-component",
+              "assign-component"][int(rng.integers(0, 8))]
         steps.append(op)
+        if op == "assign-component":
+            # x, y, z are public, assignable attributes: replace one, or give a 1-/2-component Vector its next component
+            have = [c for c in "xyz" if getattr(old, c) is not None]
+            tgt = "xyz"[len(have)] if (len(have) < 3 and rng.random() < 0.5) else have[int(rng.integers(0, len(have)))]
+            steps[-1] = f"assign-{tgt}"
+            setattr(old, tgt, osy.Array(values=gen.draw_values(rng, (n,), "float64", small=True, nonzero=True), unit=str(old.x.unit)))
+            v = old
+            res.tag("component-assigned")
+            continue
         if op == "iop-wrapper":
             v *= 2.0                         # Python rebinds v to the returned wrapper; `old` shares the buffers
         elif op == "view":
             part = old[1:3]
             part *= 10.0
         elif op == "buffer":
-            c = list(old._xyz.values())[int(rng.integers(0, nvec))]
+            live = [c for c in (old.x, old.y, old.z) if c is not None]
+            c = live[int(rng.integers(0, len(live)))]
             c.values[int(rng.integers(0, n))] = float(rng.integers(1, 50))
         elif op == "scale-returned-norm":
             r *= 3.0                         # the caller owns the returned Array
